@@ -436,7 +436,10 @@ def run(ctx):
             run_one(ctx, c)
         for c in [dict(kind='tls_real', cert='good', ca='ca1', check_hostname=True, server_hostname=None),
                   dict(kind='tls_real', cert='wrongca', ca='ca1', check_hostname=False, server_hostname=None),
-                  dict(kind='tls_real', cert='mismatch', ca='ca1', check_hostname=True, server_hostname=None)]:
+                  dict(kind='tls_real', cert='mismatch', ca='ca1', check_hostname=True, server_hostname=None),
+                  # the caller's server_hostname is what the certificate is matched against, not the dialled address
+                  dict(kind='tls_real', cert='good', ca='ca1', check_hostname=True, server_hostname='other.example'),
+                  dict(kind='tls_real', cert='mismatch', ca='ca1', check_hostname=True, server_hostname='other.example')]:
             run_one(ctx, c)
 
 # ------------------------------------------------------------------ search / reproduce / replay
